@@ -231,7 +231,7 @@ pub fn run(ctx: &mut Ctx) {
     }
     let tier = ctx.tier;
     let seed = ctx.seed;
-    let n = if ctx.slow_tool { 30 } else { tier.pick(12_000u64, 600_000u64) };
+    let n = if ctx.slow_tool { 480 } else { tier.pick(12_000u64, 600_000u64) };
     for idx in 0..n {
         if !ctx.take("parsed", idx) {
             continue;
@@ -251,7 +251,7 @@ pub fn run(ctx: &mut Ctx) {
         ctx.sample("parsed", || json!({"bytes": hex(&b)}));
         check_bytes(ctx, "parsed", idx, &b, Some(&p));
     }
-    let ni = if ctx.slow_tool { 20 } else { tier.pick(4_000u64, 200_000u64) };
+    let ni = if ctx.slow_tool { 160 } else { tier.pick(4_000u64, 200_000u64) };
     for idx in 0..ni {
         if ctx.take("instance", idx) {
             instance_pairs(ctx, idx);
